@@ -212,10 +212,28 @@ package types
 // (programmer API, not a decoder).
 //@ func NewPattern
 //@   nosafety
+// A necessary condition of a match: the literal parts of the pattern, up to the first bare wildcard if
+// there is one, all fit into the argument one after the other - it is at least as long as their total
+// length (C01: `like` does not hold for a string too short to contain the pattern's literals).
+//@ spec func litLen(cs []patternComponent, n int) int
+//@ axiom litLen_unfold: forall cs []patternComponent, n int :: { litLen(cs, n) } litLen(cs, n) == ((n <= 0) ? 0 : litLen(cs, n - 1) + len(cs[n - 1].Literal))
+//@ func matchChunk
+//@   props C01 C10
+//@   safety
+//@   results rest, ok
+//@   ensures consumed: ok ==> (len(s) >= len(chunk) && len(rest) == len(s) - len(chunk))
+//@   loop 1
+//@     invariant len(chunk) <= len(old(chunk)) && len(s) <= len(old(s)) && len(old(chunk)) - len(chunk) == len(old(s)) - len(s)
 //@ func (Pattern) Match
+//@   props C01 C10
 //@   pure
+//@   safety
+//@   results matched
+//@   ensures long_enough: matched ==> (exists n int :: 0 <= n && n <= len(p.comps) && len(old(arg)) >= litLen(p.comps, n) && (n == len(p.comps) || (p.comps[n].Wildcard && p.comps[n].Literal == "")))
+//@   loop 1
+//@     invariant len(arg) <= len(entry(arg)) && len(entry(arg)) - len(arg) >= litLen(p.comps, $i)
 //@   loop 1.1
-//@     invariant 0 <= i
+//@     invariant 0 <= i && len(arg) <= len(entry(arg)) && len(entry(arg)) - len(arg) >= litLen(p.comps, $i)
 
 // ----------------------------------------------------- immutability of values (C11)
 // No method of a value writes through its receiver or arguments; constructors
